@@ -423,7 +423,9 @@ fn gen_lifted(r: &mut Rng) -> Option<Gen> {
 fn gen_case(seed: u64, i: u64) -> Case {
     let mut r = Rng::for_case(seed, i);
     let lifted = if r.chance(1, 5) { gen_lifted(&mut r) } else { None };
-    let g = match lifted { Some(g) => g, None => gen(&mut r) };
+    let mut g = match lifted { Some(g) => g, None => gen(&mut r) };
+    // minimisation protocol (`--keep p0,p1,..`): dropped instructions become `nop` (indices, edges, pool unchanged)
+    let nelems = nop_dropped(&mut g.f, 0);
     let (a, _) = arch(match g.arch { "x86" => 0, "amd64" => 1, "mips" => 2, "mipsel" => 3, "ppc" => 4, "aarch64" => 5, _ => 6 });
     let mut it = Interner::new();
     let fcoq = coq_function(&g.f, &mut it);
@@ -442,9 +444,9 @@ fn gen_case(seed: u64, i: u64) -> Case {
             tags.push("reports-top".into());
         }
     }
-    let descr = format!("{} sp={} :: {}", g.arch, g.sp, describe(&g.f));
+    let descr = format!("{}{} sp={} :: {}", keep_prefix("instructions", nelems), g.arch, g.sp, describe(&g.f));
     let moves = g.tags.contains("push") || g.tags.contains("pop");
-    Case { coq, nontrivial: moves && g.f.locations().len() >= 3, key: descr.clone(), descr, tags }
+    Case { coq, nontrivial: moves && g.f.locations().len() >= 3, key: descr.clone(), descr, tags }.with_elements(nelems)
 }
 
 fn main() {
